@@ -26,14 +26,30 @@ def ws_raises(fn, raw):
     return out
 
 
-def need(chk, rid, what, fn, raises, code, units=(), clauses=()):
-    """A WebSocketError(code) raise exists whose PC has all the unit literals and disjunctive clauses."""
+def _neutral(lit: str) -> bool:
+    """Literals that do not weaken a rejection: state / opcode-class dispatch, 'enough bytes buffered', the outcome of earlier tests
+    that did not fire (negative literals), exception-handler membership."""
+    return lit.startswith(("!(", "(self._state ==", "(opcode in {", "(self._frame_opcode in {", "(EXCEPT(")) or lit in ("(self._compress)",)
+
+
+def need(chk, rid, what, fn, raises, code, units=(), clauses=(), allow=()):
+    """A WebSocketError(code) raise exists whose PC has all the unit literals and disjunctive clauses - and nothing else that narrows
+    it: every further positive literal must be neutral (dispatch) or listed in `allow` with a reason at the call site."""
+    weak = None
     for n, c, cl, u, d in raises:
         if c != f"WSCloseCode.{code}":
             continue
         if all(x in u for x in units) and all(any(set(cx) == set(dx) for dx in d) for cx in clauses):
+            extra = sorted(x for x in u if x not in units and not _neutral(x) and x not in allow)
+            if extra:
+                weak = weak or (n, extra)
+                continue
             chk.ok(f"C12.rej.{rid}", n, f"{what}: WebSocketError({code}) under " + " & ".join(list(units) + ["[" + " | ".join(sorted(c2)) + "]" for c2 in clauses]))
             return n
+    if weak:
+        chk.violation(f"C12.rej.{rid}", weak[0], K.short(weak[0], 60), "rejection not conditional on " + " & ".join(weak[1]),
+                      f"{what}: the rejection fires only under the additional condition {' & '.join(weak[1])}; frames that violate the rule outside that condition are accepted")
+        return None
     # same condition with a different code?
     other = [(n, c) for n, c, cl, u, d in raises if all(x in u for x in units) and all(any(set(cx) == set(dx) for dx in d) for cx in clauses)]
     if other:
@@ -80,7 +96,7 @@ def run(chk):
     need(chk, "ctllen", "control frame longer than 125", fd, R1, "PROTOCOL_ERROR", units=["(opcode > 7)", "(length > 125)"])
     need(chk, "ctlrsv1", "RSV1 on a control frame", fd, R1, "PROTOCOL_ERROR", units=["(opcode > 7)", "(rsv1)"])
     need(chk, "contrsv1", "RSV1 on a continuation fragment", fd, R1, "PROTOCOL_ERROR", units=["(rsv1)", "!(opcode > 7)", "!(self._frame_fin)", "!(self._compressed == COMPRESSED_NOT_SET)"])
-    need(chk, "len64", "64-bit length beyond the representable maximum", fd, R1, "MESSAGE_TOO_BIG", units=["(frame_len > MAX_PAYLOAD_LEN)"])
+    need(chk, "len64", "64-bit length beyond the representable maximum", fd, R1, "MESSAGE_TOO_BIG", units=["(frame_len > MAX_PAYLOAD_LEN)"], allow=("(len_flag > 126)",))  # the 64-bit length form
     capn = need(chk, "cap", "message size cap before buffering (counting the partial message)", fd, R1, "MESSAGE_TOO_BIG",
                 units=["!(self._payload_bytes_to_read < self._max_msg_size - partial_len)", "(self._max_msg_size)", "(self._frame_opcode in {OP_CODE_TEXT, OP_CODE_BINARY, OP_CODE_CONTINUATION})"])
     pl = norm.fn_defs(fd.node).defs.get("partial_len", [])
@@ -89,10 +105,12 @@ def run(chk):
     else:
         chk.violation("C12.rej.cap", fd, "partial_len = len(self._partial)", "partial message length", "the size cap ignores the fragments already buffered: a fragmented message can exceed max_msg_size")
     need(chk, "contnostart", "continuation without a started message", hf, R2, "PROTOCOL_ERROR", units=["(opcode == OP_CODE_CONTINUATION)", "(self._opcode == OP_CODE_NOT_SET)"])
-    need(chk, "newinfrag", "new data opcode inside a fragmented message", hf, R2, "PROTOCOL_ERROR", units=["(self._partial)", "!(opcode == OP_CODE_CONTINUATION)", "(fin)"])
-    need(chk, "inflatecap", "decompressed size cap", hf, R2, "MESSAGE_TOO_BIG", units=["(self._max_msg_size)", "(len(payload_merged) > self._max_msg_size)", "(compressed)"])
-    need(chk, "members", "too many deflate members", hf, R2, "MESSAGE_TOO_BIG", units=["(EXCEPT(TooManyMembersError))", "(compressed)"])
-    need(chk, "utf8", "invalid UTF-8 in a text message", hf, R2, "INVALID_TEXT", units=["(EXCEPT(UnicodeDecodeError))", "(opcode == OP_CODE_TEXT)"])
+    # RFC 6455 5.4: while a fragmented message is in progress (recorded in self._opcode by its first frame) every data frame must be a
+    # continuation - whether or not the offending frame is final and whether or not any payload has been buffered yet
+    need(chk, "newinfrag", "new data opcode inside a fragmented message", hf, R2, "PROTOCOL_ERROR", units=["!(opcode == OP_CODE_CONTINUATION)", "!(self._opcode == OP_CODE_NOT_SET)"])
+    need(chk, "inflatecap", "decompressed size cap", hf, R2, "MESSAGE_TOO_BIG", units=["(self._max_msg_size)", "(len(payload_merged) > self._max_msg_size)", "(compressed)"], allow=("(fin)",))  # a message is inflated when its final frame arrived
+    need(chk, "members", "too many deflate members", hf, R2, "MESSAGE_TOO_BIG", units=["(EXCEPT(TooManyMembersError))", "(compressed)"], allow=("(fin)",))
+    need(chk, "utf8", "invalid UTF-8 in a text message", hf, R2, "INVALID_TEXT", units=["(EXCEPT(UnicodeDecodeError))", "(opcode == OP_CODE_TEXT)"], allow=("(fin)", "(self._decode_text)"))  # text is validated when the message is complete; decode_text=False is the documented opt-out (payload handed over as bytes)
     need(chk, "closeutf8", "invalid UTF-8 in a close reason", hf, R2, "INVALID_TEXT", units=["(EXCEPT(UnicodeDecodeError))", "(opcode == OP_CODE_CLOSE)"])
     need(chk, "close1", "one-byte close payload", hf, R2, "PROTOCOL_ERROR", units=["(payload)", "(len(payload) < 2)", "(opcode == OP_CODE_CLOSE)"])
     # strict decoders: payload.decode("utf-8") without an error handler that hides invalid bytes
